@@ -2,6 +2,15 @@
 from checks import lib
 
 PROPERTY = "C09"
+LEVEL_TEXT = ("Lean 4 theorems for every capacity and every set/get sequence (induction over the op list): bytes held never exceed "
+              "capacity (size_le_cap, incl. entries larger than the cache), a lookup is a miss or exactly the last bytes stored under the key "
+              "(get_last_set, get_after_set_hit), and every slice ever handed out keeps its bytes (handout_stable, over a heap model that "
+              "can express in-place overwrite; the pre-fix code is refuted by setOld_violates). Tied to the current SegmentCache by a "
+              "line-by-line diff of size/LRU order/hit bytes/hand-out stability after every op, a direct monitor, an exhaustive "
+              "small-scope run (thorough) and a concurrent stress under the race detector.")
+LEVEL_NOTE = ("Trusted: Lean kernel; the hand-written heap model of SegmentCache (operations atomic by sync.Mutex; keys abstract ids, makeKey "
+              "injectivity argued in the model file and exercised with ':'-carrying topics); Go harness + generators. The stress run is testing.")
+TECHNIQUE = "Lean 4 invariant proofs over a heap model + Go/Lean differential correspondence + race-detector stress"
 LEAN_MODULES = ["KafVerif.Props.C09"]
 OBLIGATIONS = [
     "KafVerif.C09.size_le_cap",
